@@ -7,6 +7,7 @@ from ..spec import Clock
 from ..canon import Snap, problem_diff, vec_diff
 
 PROPERTY = 'C12'
+gen.OFFGRID = 0.12      # some asset windows start or end strictly between two grid points
 CASES = {'quick': 396, 'thorough': 3168}
 BUDGET_S = {'quick': 240, 'thorough': 2400}
 RULE = ('case = a random portfolio S (all LP asset classes + Plant/CHP with min runtime/downtime/ramp/running costs/fuel rates, storages with inflow, '
